@@ -433,7 +433,10 @@ def run_scene_case(ctx, sc, check_model=True):
         if red:
             ref = (ref[:, [2, 3]] * wts[None, None]).sum(axis=(2, 3, 4)) / wts.sum()
         ctx.impl_property_evals += 1
-        ok = got.shape == ref.shape and (np.array_equal(got, ref) if not red else np.allclose(got, ref, rtol=1e-12, atol=1e-300))
+        # reduced records are signed volume means (cancellation): compare against the size of the averaged fields
+        amp = float(np.max(np.abs(full))) if full.size else 0.0
+        ok = got.shape == ref.shape and (np.array_equal(got, ref) if not red
+                                         else bool(np.all(np.abs(got - ref) <= 1e-12 * amp)))
         if not ok and detail is None:
             detail = (f"detector sw{i} (schedule {bits(e)}, reduce={red}) holds {got.shape[0]} records; expected the "
                       f"{len(steps)} records of steps {steps} in order"
